@@ -41,7 +41,8 @@ class Worker:
         keep = ("PATH", "HOME", "LANG", "LC_ALL", "PYTHONPATH",
                 "VERIF_PYTATO_ROOT", "PYTHONHASHSEED", "LOOPY_NO_CACHE",
                 "PYTHONDONTWRITEBYTECODE", "PYTHONWARNINGS", "OMP_NUM_THREADS",
-                "OPENBLAS_NUM_THREADS", "XDG_CACHE_HOME", "VIRTUAL_ENV")
+                "OPENBLAS_NUM_THREADS", "XDG_CACHE_HOME", "VIRTUAL_ENV",
+                "TMPDIR")
         env = {k: full[k] for k in keep if k in full}
         env["PYTOOLS_LOG_NO_THREADS"] = "1"
         self.proc = subprocess.Popen(
